@@ -116,7 +116,9 @@ theorem arm_inj_props {t : Tracker} (Q : Aff → Prop) {tx : Tx} {pre : Status} 
       · cases h
       · simp only at h
         split at h
-        · simp only [Except.ok.injEq] at h; subst h; simp
+        · split at h
+          · cases h
+          · simp only [Except.ok.injEq] at h; subst h; simp
         · split at h
           · split at h
             · cases h
